@@ -56,6 +56,7 @@ type Store struct {
 	AbsentErr    error           // nil => ErrNotFound{cid}
 	FailWriteStyle int           // how a failing Write reports: 0 = (0, err), 1 = (len(p), err), 2 = (len(p)/2, err)
 	Closed       bool            // the store has been shut: every read fails
+	WriterCloses int             // Close calls on block writers (none by the unchanged builders)
 	IgnoreCtx    bool            // serve reads whatever context they are made under
 	CtxLost      int             // reads refused because the request context was missing or cancelled
 	FailReadAt   int             // k-th read-open (1-based) fails; 0 = never
@@ -339,6 +340,15 @@ func (w *writer) Write(p []byte) (int, error) {
 		return 0, err
 	}
 	return w.buf.Write(p)
+}
+
+// Close makes the block writer an io.Closer, as the writers of file-backed stores are (a temporary
+// file that is renamed on commit). Nothing in the store depends on it being called.
+func (w *writer) Close() error {
+	w.s.mu.Lock()
+	w.s.WriterCloses++
+	w.s.mu.Unlock()
+	return nil
 }
 
 func (s *Store) OpenWrite(_ linking.LinkContext) (io.Writer, linking.BlockWriteCommitter, error) {
